@@ -10,13 +10,26 @@ package dawn
 //                 by **), an enumerated escape class (valid and invalid), and sampled lists of 2-4 patterns.
 //                 Expected: a package is loaded iff no directory on the way to it, the root ("") and itself
 //                 included, is matched by some pattern; an invalid escape fails the load.
+//   ignore sweep 2  (tree "ignore2") WHICH STRINGS the ignore set is asked about.  In the first tree every name is one
+//                 letter of the pattern alphabet, so a pattern that matches a string that is NOT the path of a directory
+//                 on the way ("." for the root or for the parent of a one-component path, "/", "./d", "/d", "d/", "//d",
+//                 the absolute path, the base name, d/BUILD.dawn, ...) nearly always matches a real depth-1 directory as
+//                 well and the extra question goes unnoticed.  The second tree has names of two and three characters
+//                 over {a b .} (hidden directories included, packages at depth 0..3) and is loaded under: every single
+//                 pattern of length <= L over {a b . / * ?}, every pair of length <= 1, for every directory d and every
+//                 PSEUDO-PATH s of d (the spellings listed above; see c17wPseudoPaths) the generalisations of s that do
+//                 not match the empty path, and sampled lists mixing the three sources.  Expected: as above -- the
+//                 outcome depends on the list only through what it matches among the root-relative, slash-separated
+//                 paths of the directories of the tree.
 //   glob sweep    one fixed file tree (files at depth 0..3 whose relative paths are short words over {a x / .}) with
 //                 a module at the root and one in a/; each module calls glob() and os.glob() with: every single
 //                 include pattern of length <= L over {a x / * ?}, for every file f below the module the patterns
 //                 derived from f (each character -- the separators too -- replaced by ?, each infix by * and by **)
 //                 once as the include list and once as the exclude list against include=["**"], and sampled
-//                 include/exclude lists.  Expected: exactly the files (os.glob: files and directories) below the
-//                 module's directory, at every depth, whose relative path matches some include and no exclude.
+//                 include/exclude lists; and, for the same reason as ignore sweep 2, the generalisations of the
+//                 pseudo-paths of every file (./f, /f, the project-relative and the absolute path, the base name, the
+//                 label, f/) as include and as exclude.  Expected: exactly the files (os.glob: files and directories)
+//                 below the module's directory, at every depth, whose relative path matches some include and no exclude.
 //
 // Lines written to $VERIF_OUT_WALK (lists: comma separated hex, "-" = empty string, "nil" = empty list):
 //   wtree \t id \t dirs \t files
@@ -93,6 +106,50 @@ func c17wDerived(p string) []string {
 	for i := 0; i <= len(p); i++ {
 		for j := i; j <= len(p); j++ {
 			out = append(out, p[:i]+"*"+p[j:], p[:i]+"**"+p[j:])
+		}
+	}
+	return out
+}
+
+// the spellings under which an implementation might ask a glob set about the entry with the relative path rel (""
+// = the start directory itself) other than rel: cleaned ("." for the empty path), dotted, rooted, with a trailing
+// separator, as a label, absolute, parent, base name, a file inside it.  abs = absolute path of the start directory,
+// outer = path of the start directory relative to the project root ("" if it is the root).
+func c17wPseudoPaths(abs, outer, rel string, isDir bool) []string {
+	out := []string{".", "./", "/", "//", "..", abs, abs + "/"}
+	if rel != "" {
+		out = append(out, "./"+rel, "/"+rel, "//"+rel, rel+"/", rel+"/.", rel+"/..", "../"+rel, abs+"/"+rel,
+			filepath.Base(rel), filepath.Dir(rel), filepath.Dir(rel)+"/", ":"+rel, "//"+outer+":"+rel)
+		if outer != "" {
+			out = append(out, outer+"/"+rel, "//"+outer+"/"+rel)
+		}
+	}
+	if isDir {
+		out = append(out, "BUILD.dawn", strings.TrimPrefix(rel+"/BUILD.dawn", "/"), "//"+rel+":BUILD.dawn")
+	}
+	return out
+}
+
+// generalisations of a pseudo-path: short ones as c17wDerived, long ones (absolute paths) component-wise: each
+// component replaced by *, each run of components replaced by **
+func c17wDerivedPseudo(s string) []string {
+	if strings.ContainsAny(s, "\\*?[]'") {
+		return nil
+	}
+	if len(s) <= 6 {
+		return c17wDerived(s)
+	}
+	out := []string{s}
+	comps := strings.Split(s, "/")
+	for i := range comps {
+		if comps[i] != "" {
+			c := append([]string(nil), comps...)
+			c[i] = "*"
+			out = append(out, strings.Join(c, "/"))
+		}
+		for j := i + 1; j <= len(comps); j++ {
+			c := append(append(append([]string(nil), comps[:i]...), "**"), comps[j:]...)
+			out = append(out, strings.Join(c, "/"))
 		}
 	}
 	return out
@@ -185,11 +242,10 @@ func TestVerifC17Walk(t *testing.T) {
 	}
 	rng := rand.New(rand.NewSource(int64(seed)*104729 + 1717))
 
-	// ---------------------------------------------------------------- ignore sweep
-	{
+	// ---------------------------------------------------------------- ignore sweeps
+	// one tree (packages = the directories not in noBuild), loaded once per ignore list
+	ignoreSweep := func(id string, dirs []string, noBuild map[string]bool, mkLists func(root string) [][]string) {
 		root := t.TempDir()
-		dirs := []string{"", "a", "b", "a/a", "a/b", "b/a", "a/a/a", "a/a/b"}
-		noBuild := map[string]bool{"b": true}
 		var files []string
 		for _, d := range dirs {
 			if err := os.MkdirAll(filepath.Join(root, d), 0o755); err != nil {
@@ -200,40 +256,9 @@ func TestVerifC17Walk(t *testing.T) {
 				os.WriteFile(filepath.Join(root, d, "BUILD.dawn"), []byte("x = 1\n"), 0o644)
 			}
 		}
-		line("wtree", "ignore", c17wList(dirs[1:]), c17wList(files))
+		line("wtree", id, c17wList(dirs[1:]), c17wList(files))
 
-		const alpha = "ab/*?"
-		short := c17wEnum(alpha, 3)
-		var lists [][]string
-		for _, g := range c17wEnum(alpha, maxLen) {
-			lists = append(lists, []string{g})
-		}
-		for _, g := range c17wEnum(alpha, 1) {
-			for _, h := range c17wEnum(alpha, 1) {
-				lists = append(lists, []string{g, h})
-			}
-		}
-		var derived []string
-		for _, d := range dirs {
-			derived = append(derived, c17wDerived(d)...)
-		}
-		for _, g := range c17wDedup(derived) {
-			if len(g) > maxLen {
-				lists = append(lists, []string{g})
-			}
-		}
-		lists = append(lists, []string{"\\"}, []string{"a", "a\\"}, []string{"\\a", "b"}, []string{"b", "\\/"}, []string{"\\*"},
-			[]string{"\\?", "a"}, []string{"a/\\*", "b"}, []string{"\\\\"}, []string{"a\\"}, []string{"[", "a/[b]"})
-		for i := 0; i < nSampled; i++ {
-			l := make([]string, 2+rng.Intn(3))
-			for j := range l {
-				l[j] = c17wRandPattern(rng, alpha, short)
-			}
-			lists = append(lists, l)
-		}
-		lists = append([][]string{nil}, lists...)
-
-		for _, ignore := range lists {
+		for _, ignore := range mkLists(root) {
 			os.WriteFile(filepath.Join(root, "dawn.toml"), []byte(c17wToml(ignore)), 0o644)
 			evs := &c17events{printed: map[string][]string{}}
 			_, lerr := Load(root, &LoadOptions{Events: evs})
@@ -242,7 +267,7 @@ func TestVerifC17Walk(t *testing.T) {
 				wantErr = wantErr || !c17wWellEscaped(g)
 			}
 			if lerr != nil {
-				line("wload", "ignore", c17wList(ignore), "err", "nil")
+				line("wload", id, c17wList(ignore), "err", "nil")
 				if !wantErr {
 					line("ORACLE", "ignore-list-load-fails-only-on-invalid-escape", c17wList(ignore), "", "load error: "+lerr.Error())
 				}
@@ -265,7 +290,7 @@ func TestVerifC17Walk(t *testing.T) {
 					}
 				}
 			}
-			line("wload", "ignore", c17wList(ignore), "ok", c17wList(got), cut)
+			line("wload", id, c17wList(ignore), "ok", c17wList(got), cut)
 			if wantErr {
 				line("ORACLE", "ignore-list-load-fails-only-on-invalid-escape", c17wList(ignore), "", "load succeeded with an invalid escape")
 				continue
@@ -293,6 +318,98 @@ func TestVerifC17Walk(t *testing.T) {
 					fmt.Sprintf("package %q %s; packages of the tree (relative paths, \"\" = root): %q; loaded=%q expected=%q", p, how, dirs, got, want))
 			}
 		}
+	}
+
+	{
+		dirs := []string{"", "a", "b", "a/a", "a/b", "b/a", "a/a/a", "a/a/b"}
+		ignoreSweep("ignore", dirs, map[string]bool{"b": true}, func(string) [][]string {
+			const alpha = "ab/*?"
+			short := c17wEnum(alpha, 3)
+			var lists [][]string
+			for _, g := range c17wEnum(alpha, maxLen) {
+				lists = append(lists, []string{g})
+			}
+			for _, g := range c17wEnum(alpha, 1) {
+				for _, h := range c17wEnum(alpha, 1) {
+					lists = append(lists, []string{g, h})
+				}
+			}
+			var derived []string
+			for _, d := range dirs {
+				derived = append(derived, c17wDerived(d)...)
+			}
+			for _, g := range c17wDedup(derived) {
+				if len(g) > maxLen {
+					lists = append(lists, []string{g})
+				}
+			}
+			lists = append(lists, []string{"\\"}, []string{"a", "a\\"}, []string{"\\a", "b"}, []string{"b", "\\/"}, []string{"\\*"},
+				[]string{"\\?", "a"}, []string{"a/\\*", "b"}, []string{"\\\\"}, []string{"a\\"}, []string{"[", "a/[b]"})
+			for i := 0; i < nSampled; i++ {
+				l := make([]string, 2+rng.Intn(3))
+				for j := range l {
+					l[j] = c17wRandPattern(rng, alpha, short)
+				}
+				lists = append(lists, l)
+			}
+			return append([][]string{nil}, lists...)
+		})
+	}
+
+	// ignore sweep 2: no name of the tree is a single letter, "." occurs in names and in patterns, so that a pattern can
+	// match a pseudo-path (".", "/", "./ab", "ab/", the absolute path, ...) without matching any directory of the tree
+	{
+		dirs := []string{"", "ab", "ba", ".a", "ab/ab", "ab/.b", "ba/ab", ".a/ba", "ab/ab/ba", "ab/.b/a.b"}
+		ignoreSweep("ignore2", dirs, map[string]bool{"ba": true}, func(root string) [][]string {
+			const alpha = "ab./*?"
+			short := c17wEnum(alpha, 2)
+			inAlpha := func(g string) bool { return strings.Trim(g, alpha) == "" }
+			var lists [][]string
+			for _, g := range c17wEnum(alpha, maxLen) {
+				lists = append(lists, []string{g})
+			}
+			for _, g := range c17wEnum(alpha, 1) {
+				for _, h := range c17wEnum(alpha, 1) {
+					lists = append(lists, []string{g, h})
+				}
+			}
+			var real, pseudo []string
+			for _, d := range dirs {
+				for _, g := range c17wDerived(d) {
+					if !c17gSpec(g, "") {
+						real = append(real, g)
+					}
+				}
+				for _, s := range c17wPseudoPaths(root, "", d, true) {
+					for _, g := range c17wDerivedPseudo(s) {
+						if !c17gSpec(g, "") {
+							pseudo = append(pseudo, g)
+						}
+					}
+				}
+			}
+			real, pseudo = c17wDedup(real), c17wDedup(pseudo)
+			for _, g := range c17wDedup(append(append([]string(nil), real...), pseudo...)) {
+				if len(g) > maxLen || !inAlpha(g) {
+					lists = append(lists, []string{g})
+				}
+			}
+			for i := 0; i < nSampled; i++ {
+				l := make([]string, 2+rng.Intn(2))
+				for j := range l {
+					switch rng.Intn(3) {
+					case 0:
+						l[j] = short[rng.Intn(len(short))]
+					case 1:
+						l[j] = real[rng.Intn(len(real))]
+					default:
+						l[j] = pseudo[rng.Intn(len(pseudo))]
+					}
+				}
+				lists = append(lists, l)
+			}
+			return lists
+		})
 	}
 
 	// ---------------------------------------------------------------- glob sweep
@@ -350,6 +467,26 @@ func TestVerifC17Walk(t *testing.T) {
 				}
 				qs = append(qs, query{inc: []string{"**"}, exc: []string{g}})
 			}
+			// pseudo-paths of every entry below the module: a pattern that matches one of them and not the entry's
+			// relative path must neither select nor exclude it
+			issued := map[string]bool{}
+			for _, g := range derived {
+				issued[g] = true
+			}
+			var pseudo []string
+			for _, p := range below(m, files) {
+				for _, s := range c17wPseudoPaths(filepath.Join(root, m), m, p, false) {
+					for _, g := range c17wDerivedPseudo(s) {
+						if !issued[g] && (len(g) > maxLen || strings.Trim(g, alpha) != "") {
+							issued[g] = true
+							pseudo = append(pseudo, g)
+						}
+					}
+				}
+			}
+			for i, g := range pseudo {
+				qs = append(qs, query{inc: []string{g}, os: i%4 == 3}, query{inc: []string{"**"}, exc: []string{g}, os: i%4 == 1})
+			}
 			for i := 0; i < 3*nSampled; i++ {
 				q := query{inc: make([]string, 1+rng.Intn(3)), exc: make([]string, rng.Intn(3)), os: i%3 == 2}
 				for j := range q.inc {
@@ -357,6 +494,13 @@ func TestVerifC17Walk(t *testing.T) {
 				}
 				for j := range q.exc {
 					q.exc[j] = c17wRandPattern(rng, alpha, short)
+				}
+				if i%4 == 1 && len(pseudo) > 0 { // a list in which one pattern matches a pseudo-path
+					if g := pseudo[rng.Intn(len(pseudo))]; len(q.exc) > 0 && rng.Intn(2) == 0 {
+						q.exc[rng.Intn(len(q.exc))] = g
+					} else {
+						q.inc[rng.Intn(len(q.inc))] = g
+					}
 				}
 				qs = append(qs, q)
 			}
